@@ -102,6 +102,56 @@ func (vc *VC) execFunc(fn *ssa.Function, args []SV, bind []SV, fi *FuncInfo, isR
 		vc.st.Cond = "true"
 	}
 	entrySt := vc.st
+	if _, pathMode := func() (string, bool) {
+		if isRoot && fi != nil {
+			v, ok := fi.C.Attrs["paths"]
+			return v, ok
+		}
+		return "", false
+	}(); pathMode {
+		// path-sensitive exploration of the function under verification: no state merging
+		// at joins, one obligation per path (smaller, case-free queries)
+		visits := 0
+		var explore func(b *ssa.BasicBlock, from *ssa.BasicBlock, st *State)
+		explore = func(b *ssa.BasicBlock, from *ssa.BasicBlock, st *State) {
+			visits++
+			if visits > 600 {
+				vc.fail("path explosion in %s (more than 600 block visits)", fn)
+			}
+			vc.st = st.clone()
+			if from != nil {
+				for _, ins2 := range b.Instrs {
+					phi, ok := ins2.(*ssa.Phi)
+					if !ok {
+						break
+					}
+					for i, p := range b.Preds {
+						if p == from {
+							fr.vals[phi] = vc.val(fr, phi.Edges[i])
+						}
+					}
+				}
+			}
+			if li := fr.loops[b]; li != nil {
+				vc.loopHead(fr, li, b)
+			}
+			// drop edges of earlier visits so that only this visit's successors are followed
+			for _, sblk := range b.Succs {
+				delete(fr.edges, [2]int{b.Index, sblk.Index})
+			}
+			vc.execBlock(fr, b)
+			for _, sblk := range b.Succs {
+				if e, ok := fr.edges[[2]int{b.Index, sblk.Index}]; ok {
+					if e.Cond == "false" {
+						continue
+					}
+					explore(sblk, b, e)
+				}
+			}
+		}
+		explore(fn.Blocks[0], nil, entrySt)
+		order = nil
+	}
 	for _, b := range order {
 		var st *State
 		if b == fn.Blocks[0] {
@@ -679,7 +729,11 @@ func (vc *VC) execInstr(fr *Frame, b *ssa.BasicBlock, ins ssa.Instruction) {
 			vals = append(vals, vc.val(fr, r))
 		}
 		if fr.isRoot {
-			vc.smoke(fmt.Sprintf("return%d", len(fr.rets)+1))
+			if _, pm := fr.fi.C.Attrs["paths"]; pm && fr.fi != nil {
+				vc.smokePath(fmt.Sprintf("return%d", len(fr.rets)+1))
+			} else {
+				vc.smoke(fmt.Sprintf("return%d", len(fr.rets)+1))
+			}
 			vc.rootReturn(fr, vals)
 		}
 		fr.rets = append(fr.rets, retInfo{st: vc.st.clone(), vals: vals})
@@ -1163,7 +1217,7 @@ func (vc *VC) rootReturn(fr *Frame, results []SV) {
 		if len(en.Tags) > 0 {
 			tag = "[" + strings.Join(en.Tags, ",") + "]"
 		}
-		vc.oblige("ensures"+tag+":"+clauseLabel(en, i), en.Tags, g)
+		vc.obligeConj("ensures"+tag+":"+clauseLabel(en, i), en.Tags, g)
 	}
 	if len(vc.st.Locks) > 0 {
 		if _, holds := fi.C.Attrs["holds"]; !holds {
